@@ -1,0 +1,19 @@
+//go:build verif
+
+package checksumutils
+
+// Contracts checked by /verif/gocv (comment-only file; see /verif/DESIGN.md §3).
+//
+// C04. Multipart / appended objects: the ETag is the MD5 over the decoded part ETags with the suffix "-N" (N = number
+// of parts); a FULL_OBJECT checksum is obtained by combining the running CRC with each part's CRC using THAT part's
+// size (the length of the bytes the part's CRC describes). The loop is summarised by one arbitrary iteration; `part`
+// is the part of that iteration.
+//@ func CalculateMultipartChecksums
+//@ mode effects
+//@ effect[C04:crc32-combined-with-this-parts-length] every CombineCrc32($acc, $d, $n) where $n == part.Size
+//@ effect[C04:crc32c-combined-with-this-parts-length] every CombineCrc32c($acc, $d, $n) where $n == part.Size
+//@ effect[C04:crc64nvme-combined-with-this-parts-length] every CombineCrc64Nvme($acc, $d, $n) where $n == part.Size
+//@ effect[C04:crc32-of-this-part] every CombineCrc32($acc, $d, $n) needs before base64.StdEncoding.DecodeString($s) -> ($data, $e) where $e == nil && part.ChecksumCRC32 != nil && $s == *part.ChecksumCRC32 && same($d, $data)
+//@ effect[C04:crc32c-of-this-part] every CombineCrc32c($acc, $d, $n) needs before base64.StdEncoding.DecodeString($s) -> ($data, $e) where $e == nil && part.ChecksumCRC32C != nil && $s == *part.ChecksumCRC32C && same($d, $data)
+//@ effect[C04:crc64nvme-of-this-part] every CombineCrc64Nvme($acc, $d, $n) needs before base64.StdEncoding.DecodeString($s) -> ($data, $e) where $e == nil && part.ChecksumCRC64NVME != nil && $s == *part.ChecksumCRC64NVME && same($d, $data)
+//@ ensures[C04:etag-carries-the-part-count] err == nil ==> result.ETag != nil && strings.HasSuffix(*result.ETag, "-"+strconv.Itoa(len(parts))+"\"") && strings.HasPrefix(*result.ETag, "\"")
